@@ -5,17 +5,28 @@ use crate::{Dot, VClock};
 pub const NIN: usize = 96;
 pub type Inp = [u8; NIN];
 
-// ---- universe bounds (DESIGN.md §4); the thorough tier is built with `--cfg vthorough`
-#[cfg(not(vthorough))]
+// ---- universe bounds (DESIGN.md §4): one scratch build per bounds profile (tools/vbuild.py)
+#[cfg(vsmall)]
 mod b {
-    pub const NA: u8 = 3; // actors 0..NA
+    // profile:small
+    pub const NA: u8 = 2; // actors 0..NA
     pub const NC: u64 = 2; // counters 0..=NC
     pub const NM: u8 = 2; // members / keys 0..NM
     pub const NV: u8 = 2; // payload values 0..NV
-    pub const NR: usize = 1; // pending removes
+    pub const NR: usize = 1; // removes in the universe
+}
+#[cfg(not(any(vsmall, vthorough)))]
+mod b {
+    // profile:base
+    pub const NA: u8 = 3;
+    pub const NC: u64 = 2;
+    pub const NM: u8 = 2;
+    pub const NV: u8 = 2;
+    pub const NR: usize = 1;
 }
 #[cfg(vthorough)]
 mod b {
+    // profile:big
     pub const NA: u8 = 3;
     pub const NC: u64 = 3;
     pub const NM: u8 = 3;
@@ -55,6 +66,12 @@ impl<'a> In<'a> {
         } else {
             v
         }
+    }
+    /// which output slice this run compares (`//@ harness variants=n`): the driver fixes the last input
+    /// byte to 0..n-1, one symbolic execution per value; natively any byte is folded into the range
+    #[inline(always)]
+    pub fn variant(&self, n: u8) -> u8 {
+        self.b[NIN - 1] % n
     }
     #[inline(always)]
     pub fn assume(&mut self, c: bool) {
